@@ -373,6 +373,13 @@ class Models(object):
             return self.contains(sorted(container, key=repr), item)
         if isinstance(container, (set, frozenset)) and isinstance(item, SInt):
             return self.contains(sorted(container, key=repr), item)
+        if hasattr(container, "__next__") and not isinstance(container, (str, bytes)):
+            # `x in <iterator>`: the iterator is advanced until an equal item is met (python semantics; it stays consumed)
+            for y in self.interp.iterate(container):
+                r = self.interp.compare(ast.Eq, item, y)
+                if r is True or (isinstance(r, SBool) and self.ctx.branch(r.e, "in-iterator")):
+                    return True
+            return False
         if getattr(container, "_pyvc_model", False):
             return container.__contains__(item)
         f = getattr(type(container), "__contains__", None)
